@@ -150,6 +150,10 @@ class AsyncRun:
             guard += 1
         if not task.done():
             return HarnessError("stop() did not finish")
+        if task.cancelled():
+            import asyncio
+
+            return asyncio.CancelledError("stop() ended with CancelledError")
         return task.exception()
 
     def close(self):
